@@ -32,7 +32,8 @@ def TranRow (w : Nat) (t o m q s t_a q_a : List Nat) (gotM goqM : M α) (pvm : L
   (∃ (i : Nat), s[i]? = some p ∧ row = zeroRow w)
 
 /-- **formtran, general path** (`se != 0`, some requested DOF outside the a-set): one row per requested DOF in
-request order; the row of DOF `d` is `TranRow` of a table row `p` that carries exactly `d`'s `[id, dof]`.
+request order; the row of DOF `d` is `TranRow` of the g-set position `p` whose `[id, dof]` is exactly `d` (`idg` = `iddofG`, the `[id, dof]` table of the g-set
+rows - the code since fix e74e9b9 of finding F69; `iddofG_is_gset_rows` in `Props/C18Tran0.lean`).
 `t_a`, `q_a` must not share a column (`hdis`: no DOF is in the t-set and in the q-set at once, as in every
 table of base-set words). -/
 theorem formtran_partition_identity (mk : Masks) (tbl : List Row) (got goq gm : Option (M α)) (req : Request)
@@ -43,7 +44,8 @@ theorem formtran_partition_identity (mk : Masks) (tbl : List Row) (got goq gm : 
     (hgen : pvdof.all (fun i => a[i]? == some true) = false)
     (hta : setPos tbl mk.a mk.t = .ok t_a) (hqa : setPos tbl mk.a mk.q = .ok q_a)
     (hdis : ∀ c ∈ t_a, c ∉ q_a) :
-    ∃ (t o m q s : List Nat) (gotM goqM : M α) (pvm : List Nat) (mRows : List (List α)),
+    ∃ (idg : List κ) (t o m q s : List Nat) (gotM goqM : M α) (pvm : List Nat) (mRows : List (List α)),
+      iddofG mkKey mk tbl = .ok idg ∧
       setPos tbl mk.g mk.t = .ok t ∧ setPos tbl mk.g mk.o = .ok o ∧ setPos tbl mk.g mk.q = .ok q ∧
       setPos tbl mk.g mk.s = .ok s ∧
       (mRows ≠ [] → setPos tbl mk.g mk.m = .ok m ∧ ∃ (gmM gmSel : M α) (t_n o_n q_n : List Nat),
@@ -53,9 +55,9 @@ theorem formtran_partition_identity (mk : Masks) (tbl : List Row) (got goq gm : 
       (∀ g, got = some g → gotM = g) ∧ (∀ g, goq = some g → goqM = g) ∧
       (got = none → ∀ r ∈ gotM.r, r.length = gotM.c) ∧ (goq = none → ∀ r ∈ goqM.r, r.length = goqM.c) ∧
       out.c = gotM.c + goqM.c ∧
-      List.Forall₂ (fun d row => ∃ p, (iddofOf mkKey tbl)[p]? = some (mkKey d.1 d.2) ∧
+      List.Forall₂ (fun d row => ∃ p, idg[p]? = some (mkKey d.1 d.2) ∧
         TranRow (gotM.c + goqM.c) t o m q s t_a q_a gotM goqM pvm mRows p row) dof out.r := by
-  unfold formtranUp at h
+  unfold formtranUp formtranUpWith at h
   rw [hpv, hta, hqa, ha] at h
   obtain ⟨pd, hpd, h⟩ := bind_ok h
   cases liftE_ok hpd
@@ -69,12 +71,13 @@ theorem formtran_partition_identity (mk : Masks) (tbl : List Row) (got goq gm : 
   rw [hgen] at h
   simp only [Bool.false_eq_true, if_false] at h
   obtain ⟨x, hx, h⟩ := bind_ok h
+  obtain ⟨idg, hidg, h⟩ := bind_ok h
   obtain ⟨rows, hrows, h⟩ := bind_ok h
   obtain ⟨o', ho', h⟩ := bind_ok h
   simp only [Except.ok.injEq, Prod.mk.injEq] at h
   obtain ⟨rfl, _⟩ := h
   obtain ⟨t, o, q, s, ht, ho, hq, hs, hft, hfo, hfq, hfs, hgot, hgoq, hgot0, hgoq0, hpm, hpmok, htn⟩ :=
-    upSelect_spec mkKey hx
+    upSelectWith_spec hx
   -- distinct columns
   have hnt : t_a.Nodup := by
     unfold setPos at hta
@@ -125,7 +128,7 @@ theorem formtran_partition_identity (mk : Masks) (tbl : List Row) (got goq gm : 
         rw [← hpm] at hv
         obtain ⟨htn1, htn2, htn3⟩ := htn y hpmv
         obtain ⟨m', g'⟩ := y
-        obtain ⟨m, gmM, pv, hm, hgm, hfm, _, hfg⟩ := procMset_spec mkKey hv
+        obtain ⟨m, gmM, pv, hm, hgm, hfm, _, hfg⟩ := procMsetWith_spec hv
         rw [hpmv] at hmR
         simp only at hmR
         have hl := mBlock_length hmR
@@ -157,7 +160,7 @@ theorem formtran_partition_identity (mk : Masks) (tbl : List Row) (got goq gm : 
     · exact hS.imp fun p row h => Or.inr (Or.inr (Or.inr (Or.inr h)))
   have hre := reorder_spec ho' hall.length_eq.symm
     (by rw [mkdofpv_lengths hpv]; simp [dofRows])
-  refine ⟨t, o, m, q, s, x.gotM, x.goqM, pvm, mRows, ht, ho, hq, hs, hmset, hgot, hgoq, hgot0, hgoq0, hre.1, ?_⟩
+  refine ⟨idg, t, o, m, q, s, x.gotM, x.goqM, pvm, mRows, hidg, ht, ho, hq, hs, hmset, hgot, hgoq, hgot0, hgoq0, hre.1, ?_⟩
   have h2 := hre.2
   unfold dofRows at h2
   rw [List.forall₂_map_left_iff] at h2
@@ -182,7 +185,7 @@ theorem formtran_aset_identity (mk : Masks) (tbl : List Row) (got goq gm : Optio
     (hpa : mkdofpv mk.p tbl (.mask mk.a) (.rows dof) true = .ok (pvdofa, dofa)) :
     out.c = a.count true ∧
     List.Forall₂ (fun i row => i < a.count true ∧ row = unitRow (a.count true) i) pvdofa out.r := by
-  unfold formtranUp at h
+  unfold formtranUp formtranUpWith at h
   rw [hpv, hta, hqa, ha] at h
   obtain ⟨pd, hpd, h⟩ := bind_ok h
   cases liftE_ok hpd
@@ -236,7 +239,7 @@ theorem formtran_columns_are_target_set (mk : Masks) (tbl : List Row) (got goq g
         obtain ⟨i, _, _, hr⟩ := forall₂_getElem?' h2 k row hk
         rw [hr, unitRow_length, h1]
   | false =>
-      obtain ⟨t, o, m, q, s, gotM, goqM, pvm, mRows, _, _, _, _, _, hg1, hg2, _, _, hcw, hall⟩ :=
+      obtain ⟨_, t, o, m, q, s, gotM, goqM, pvm, mRows, _, _, _, _, _, _, hg1, hg2, _, _, hcw, hall⟩ :=
         formtran_partition_identity mkKey mk tbl got goq gm req out dof pvdof a t_a q_a h hpv ha hc hta hqa hdis
       refine ⟨hall.length_eq.symm, ?_, fun hf => (by cases hf), fun _ => ⟨gotM, goqM, hg1, hg2, hcw⟩⟩
       intro row hrow
@@ -269,7 +272,7 @@ example : formtranUp (α := Int) exKey exMasks exTbl (some ⟨[[2]], 1⟩) (some
     mksetpv (exTbl.map (·.2.2)) exMasks.g exMasks.a = .ok [true, false, true] ∧
     ([1, 0] : List Nat).all (fun i => [true, false, true][i]? == some true) = false ∧
     setPos exTbl exMasks.a exMasks.t = .ok [0] ∧ setPos exTbl exMasks.a exMasks.q = .ok [1] := by
-  simp [formtranUp, mkdofpv, mksetpv, expanddof, expanddof2, expandRow, digits, digitsRev, mkdofpvKeys, argsort,
+  simp [formtranUp, formtranUpWith, upSelectWith, procMsetWith, iddofG, rowsOfMask, mkdofpv, mksetpv, expanddof, expanddof2, expandRow, digits, digitsRev, mkdofpvKeys, argsort,
     lookup, searchsortedLeft, key, List.mergeSort, List.zipIdx, List.MergeSort.Internal.splitInTwo,
     exMasks, Masks.ofTable, exTbl, mask, v_p, v_g, v_n, v_f, v_a, v_q, v_r, v_b, v_c, v_o, v_s, v_m, v_e, v_l, v_t,
     inSet, liftE, setPos, positions, upSelect, selSet, selIn, takeIdx, matIntersect, lookupAll, iddofOf, dofRows, exKey,
@@ -282,7 +285,7 @@ example : formtranUp (α := Int) exKey exMasks exTbl (some ⟨[[2]], 1⟩) (some
     mkdofpv exMasks.p exTbl (.mask exMasks.g) (.rows [(3, 0), (1, 0)]) true = .ok ([2, 0], [(3, 0), (1, 0)]) ∧
     ([2, 0] : List Nat).all (fun i => [true, false, true][i]? == some true) = true ∧
     mkdofpv exMasks.p exTbl (.mask exMasks.a) (.rows [(3, 0), (1, 0)]) true = .ok ([1, 0], [(3, 0), (1, 0)]) := by
-  simp [formtranUp, mkdofpv, mksetpv, expanddof, expanddof2, expandRow, digits, digitsRev, mkdofpvKeys, argsort,
+  simp [formtranUp, formtranUpWith, upSelectWith, procMsetWith, iddofG, rowsOfMask, mkdofpv, mksetpv, expanddof, expanddof2, expandRow, digits, digitsRev, mkdofpvKeys, argsort,
     lookup, searchsortedLeft, key, List.mergeSort, List.zipIdx, List.MergeSort.Internal.splitInTwo,
     exMasks, Masks.ofTable, exTbl, mask, v_p, v_g, v_n, v_f, v_a, v_q, v_r, v_b, v_c, v_o, v_s, v_m, v_e, v_l, v_t,
     inSet, liftE, setPos, positions, takeIdx, unitRow, maskSel,
